@@ -559,6 +559,23 @@ func (c *Ctx) ParseArgs(args []string) {
 		}
 	}
 	c.workerOut = os.Getenv("VERIF_WORKER_OUT")
+	if c.Replay != "" {
+		// a replay re-runs the recorded case: seed and tier come from the replay file
+		if b, err := os.ReadFile(c.Replay); err == nil {
+			var w struct {
+				Seed *int64 `json:"seed"`
+				Tier string `json:"tier"`
+			}
+			if json.Unmarshal(b, &w) == nil {
+				if w.Seed != nil {
+					c.Seed = *w.Seed
+				}
+				if w.Tier == "quick" || w.Tier == "thorough" {
+					c.Tier = w.Tier
+				}
+			}
+		}
+	}
 }
 
 // ReplayDetail loads the "detail" member of a replay file into v.
